@@ -82,7 +82,7 @@ func C11Scenario() *Scenario {
 		w.Cfg["policy"] = fmt.Sprintf("hold=%d fault=%d", pol.HoldWatch, pol.APIFault)
 		w.Stages = []Stage{
 			{Name: "chaos", Policy: pol, Steps: 200 + 100*t.Pick(3, "len")},
-			{Name: "drain", Quiet: true, MaxSteps: 4000, Do: func(w *World) { b.Left = 0 }, Check: func(w *World) *Violation { return c11Oracle(w, s) }},
+			{Name: "drain", Quiet: true, CheckOnBudget: true, MaxSteps: 4000, Do: func(w *World) { b.Left = 0 }, Check: func(w *World) *Violation { return c11Oracle(w, s) }},
 		}
 	}}
 }
